@@ -53,7 +53,7 @@ func main() {
 		os.Exit(replay(run, fl.Replay))
 	}
 
-	n := evid.Tiered(fl.Tier, 200, 5000)
+	n := evid.Tiered(fl.Tier, 1000, 5000)
 	if v := os.Getenv("PMSIM_CASES"); v != "" {
 		if x, err := strconv.Atoi(v); err == nil {
 			n = x
